@@ -78,6 +78,7 @@ impl<T> Tagged<RcInner<T>> {
             self
         } else {
             vy!(120, 0, 0);
+            vy!(1120, 0, global_epoch());
             self.with_high_tag(global_epoch())
         }
     }
